@@ -22,10 +22,10 @@ STATIC = ["C09_next_id_monotone", "C09_decode_unique", "C09_names_fresh", "C09_r
 
 import re as _re
 GEN_LABEL = _re.compile(r"(SYM|FUN|QTY|SYS|VEC|C)\d+")
-# shapes / entry points that show the generated name on the UNCHANGED tree (measured; outside the property's observe_at list, reported as
-# observations in the design note): str()/repr() go through SymPy's StrPrinter, which prints an applied undefined function by its class name,
-# and print_expression of an unapplied Function class has no display hook
-BASELINE_LEAKS = {("fun", "*", "str"), ("fun", "*", "repr"), ("fun", "unapplied", "print_expression")}
+# entry points that show the generated name on the UNCHANGED tree and are not observation points of the property (recorded as
+# observations in the design note): str()/repr() go through SymPy's StrPrinter, which prints an applied undefined function by its class name.
+# (print_expression of an unapplied Function used to be here too: it was a genuine violation, repaired in /repo 032cba4, now enforced.)
+BASELINE_LEAKS = {("fun", "*", "str"), ("fun", "*", "repr")}
 
 CODE_NAMES = {1: "objects", 2: "counters", 3: "aliasing", 4: "printed-sums", 5: "algebra"}
 CLONE_FN = {"csym": "clone_as_symbol", "cfun": "clone_as_function", "cidx": "clone_as_indexed"}
@@ -159,7 +159,7 @@ def spec_failures(case):
             continue
         if (r["kind"], m["form"], m["entry"]) in BASELINE_LEAKS or (r["kind"], "*", m["entry"]) in BASELINE_LEAKS:
             continue
-        if m["form"] == "unapplied" and m["text"].startswith("<raised"):
+        if m["form"].startswith("unapplied") and m["text"].startswith("<raised"):
             continue            # code_str refuses a Function class that was created without an argument list
         if r["name"] in m["text"] or r["display"] not in m["text"]:
             out.append((f"C09:printing:{m['entry']}:{r['kind']}:{m['form']}",
